@@ -410,7 +410,7 @@ def _shard(arg) -> Stats:
     for i, desc in enumerate(irgen.enumerate_regions(K, n_ext=n_ext, **bounds)):
         if i % nshards != shard:
             continue
-        check_desc(st, desc, deep=(i % deep_every == 0))
+        check_desc(st, desc, deep=((i // nshards) % deep_every == 0))   # spread the deep cases evenly over the shards
         if n_ext == 0:
             pass_on_clone(st, desc)
         if (i + seed) % 2003 == 0:
@@ -420,7 +420,7 @@ def _shard(arg) -> Stats:
 
 def run(ctx):
     if ctx.quick:
-        spaces = [(dict(max_blocks=2, max_ops=2, max_args=1, depth=1), 1, 32), (dict(max_blocks=1, max_ops=3, max_args=0, depth=1), 0, 32)]
+        spaces = [(dict(max_blocks=2, max_ops=2, max_args=1, depth=1), 1, 64), (dict(max_blocks=1, max_ops=3, max_args=0, depth=1), 0, 64)]
     else:
         spaces = [(dict(max_blocks=2, max_ops=3, max_args=1, depth=1), 1, 64), (dict(max_blocks=2, max_ops=2, max_args=1, depth=1), 1, 4)]
     n = 64
